@@ -1,4 +1,6 @@
+pub mod c02;
 pub mod c09;
+pub mod common;
 
 use crate::report::{Evidence, Stats, report_violations, stats_to_json};
 use serde_json::{Value, json};
@@ -48,4 +50,13 @@ pub fn finish(
         started.elapsed().as_secs_f64()
     );
     out.exit_code
+}
+
+/// dispatch table: property id -> (run, replay)
+pub fn dispatch(id: &str) -> Option<(fn(Tier) -> i32, fn(&Value) -> String)> {
+    match id {
+        "C02" => Some((c02::run, common::replay_lockstep)),
+        "C09" => Some((c09::run, c09::replay)),
+        _ => None,
+    }
 }
